@@ -118,6 +118,9 @@ def main(argv=None):
             broken.append(f"{r.qual}: no feasible path (vacuous)")
         if not [vc for vc in r.vcs]:
             broken.append(f"{r.qual}: zero obligations generated")
+        con_ = spec.CONTRACTS.get(r.qual)
+        if con_ is not None and con_.ensures and not any(vc.kind == "post" for vc in r.vcs):
+            undecided.append(f"{r.qual}: no path reaches the end of the function (postconditions never checked); notes: {r.notes[:2]}")
     can_by = {}
     for vc in can_vcs:
         can_by.setdefault(vc.name, []).append(vc)
